@@ -505,6 +505,32 @@ impl Prop for C06 {
                 return;
             }
             // (b) read everything back
+            if (step % 4 == 1) && forced.is_empty() {
+                // a variable that reads as 0 reads as the 0 of its own type: (v+1)/3 shows the precision
+                let zeros: Vec<(&str, u8)> = SCALARS
+                    .iter()
+                    .filter(|(name, code)| !m.unk.contains(*name) && !m.vals.contains_key(*name) && m.ty(name, *code) != 3)
+                    .map(|(name, code)| (*name, m.ty(name, *code)))
+                    .take(3)
+                    .collect();
+                if !zeros.is_empty() {
+                    let line = format!("PRINT {}", zeros.iter().map(|(r, _)| format!("({}+1)/3", r)).collect::<Vec<_>>().join(";"));
+                    let mark = s.mark();
+                    s.command(&line, 64);
+                    let got = transcript(s.events_since(mark), Norm::STD);
+                    let want: String = zeros.iter().map(|(_, ty)| if *ty == 2 { " 0.3333333333333333 " } else { " 0.33333334 " }).collect::<Vec<_>>().join("") + "\nREADY.\n<STOPPED>";
+                    ctx.add("zero_reads_typed", zeros.len() as u64);
+                    if got != want {
+                        ctx.violation(
+                            "wrong-readback",
+                            "vars:zero-of-own-type",
+                            &format!("{}\n printed {:?}\n a variable that is 0 reads as the 0 of its own type: {:?}", line, got, want),
+                            &format!("{}\n{}", text, line),
+                        );
+                        return;
+                    }
+                }
+            }
             if (step % 4 == 3 || step == n - 1) && forced.is_empty() {
                 let mut refs: Vec<(String, u8)> = vec![];
                 for (name, code) in SCALARS.iter() {
